@@ -691,7 +691,7 @@ pub fn prop() -> Prop<Case> {
     Prop {
         id: "C10",
         level: "fault_enumeration",
-        rule: "case = archive from a generated history of <=5 ops (incl. interrupted backups; a third of the histories are made to end with a complete backup in small hunks, edits, and a backup killed in the middle) + 3-7 bit-flip positions; inner domain enumerated: every stored file (heads, tails, hunks, blocks; the archive header only for a clean-failure probe) x {delete, truncate 0, truncate half, garbage of equal length} + the generated bit flips in every file (thorough: all pairs; quick: an evenly spaced third, at most 48 per archive, plus — never thinned away — deletion and garbling of the older band's hunk at the resume point of every interrupted version and of the hunk after it, and garbling/halving of that band's head). For each: versions, ls and restore of every band, validate (full, quick), a new backup and its restore must return without panic (listing length bounded by the archive's entry count; per-case watchdog for hangs). In every band whose head still parses and whose restore ran: every file entry of the pre-damage reference listing whose own hunk file and block files are not the damaged file (and, for entries stitched from an older band, whose band's head/tail are not the damaged file) must restore byte- and mtime-exact; an entry stitched from an older band whose head is still present but unreadable must restore exactly or restore must report an error; every file entry whose hunk or block is, by the independent decoder, now missing or undecodable requires that restore reported an error, and a file whose block was damaged and which does not restore to its recorded content must be named by a reported error (per file, so that an error for one file of a shared block does not excuse silently altered siblings) (deletion of the last hunk of an incomplete band is exempt: indistinguishable from an earlier interruption). After delete/truncate-0 a new backup must succeed and restore the source exactly. Non-trivial inner = the damaged file is referenced by at least one version; inner values distinct by construction. Fixed scale probes per run: hunks 9 999, 10 000, 10 001 and 5 of a 10 015-hunk version deleted/garbled/emptied (restore must report, restore everything else exactly, quick validate must report), three bit flips inside a 6 MiB block; one block deleted from a version whose single index hunk exceeds 32 MiB; and the follow-up backup made through the same opened archive value as the first one after all / one of its block files were deleted / emptied must complete and restore exactly; since round 6 `conserve versions` proper (show_versions plain and with start time, duration and tree size, oldest and newest first) runs after every damage",
+        rule: "case = archive from a generated history of <=5 ops (incl. interrupted backups; a third of the histories are made to end with a complete backup in small hunks, edits, and a backup killed in the middle) + 3-7 bit-flip positions; inner domain enumerated: every stored file (heads, tails, hunks, blocks; the archive header only for a clean-failure probe) x {delete, truncate 0, truncate half, garbage of equal length} + the generated bit flips in every file (thorough: all pairs; quick: an evenly spaced third, at most 48 per archive, plus — never thinned away — deletion and garbling of the older band's hunk at the resume point of every interrupted version and of the hunk after it, and garbling/halving of that band's head). For each: versions, ls and restore of every band, validate (full, quick), a new backup and its restore must return without panic (listing length bounded by the archive's entry count; per-case watchdog for hangs). In every band whose head still parses and whose restore ran: every file entry of the pre-damage reference listing whose own hunk file and block files are not the damaged file (and, for entries stitched from an older band, whose band's head/tail are not the damaged file) must restore byte- and mtime-exact; an entry stitched from an older band whose head is still present but unreadable must restore exactly or restore must report an error; every file entry whose hunk or block is, by the independent decoder, now missing or undecodable requires that restore reported an error, and a file whose block was damaged and which does not restore to its recorded content must be named by a reported error (per file, so that an error for one file of a shared block does not excuse silently altered siblings) (deletion of the last hunk of an incomplete band is exempt: indistinguishable from an earlier interruption). After delete/truncate-0 a new backup must succeed and restore the source exactly. Non-trivial inner = the damaged file is referenced by at least one version; inner values distinct by construction. Fixed scale probes per run: hunks 9 999, 10 000, 10 001 and 5 of a 10 015-hunk version deleted/garbled/emptied (restore must report, restore everything else exactly, quick validate must report), three bit flips inside a 6 MiB block; one block deleted from a version whose single index hunk exceeds 32 MiB; and the follow-up backup made through the same opened archive value as the first one after all / one of its block files were deleted / emptied must complete and restore exactly; since round 6 `conserve versions` proper (show_versions plain and with start time, duration and tree size, oldest and newest first) runs after every damage; since round 7 a probe with one combined block shared by 1100 consecutive files deleted (five untouched files sort after them), and the per-file obligations hold also when a restore returns an error after damage to a block",
         assumptions: &[
             "'reported an error' is lenient: Err, Monitor error, or ERROR-level tracing event",
             "hunks altered but still decodable carry only the no-crash obligation",
